@@ -28,7 +28,7 @@ type Mutant struct {
 	Expect  []string `json:"expect"`          // rule ids that must report (violated or undecided); empty + Benign => must stay silent
 	Benign  bool     `json:"benign,omitempty"`
 	Known   bool     `json:"known_false_alarm,omitempty"` // benign edit on which the checker is known to raise an alarm (documented limitation)
-	Engines string   `json:"engines"` // comma list
+	Engines string   `json:"engines"`                     // comma list
 	NoBuild bool     `json:"nobuild,omitempty"`
 	Why     string   `json:"why,omitempty"`
 }
